@@ -230,7 +230,7 @@ def decide(ob, ctx, path):
             elif verdict == "sat":
                 params, _ = witness_from_model(model, q, ctx.P)
                 pins = {o.decl().name(): formula.val(model, o) for o in ob.observables}
-                res["witness"] = {"params": params, "pins": pins}
+                res["witness"] = {"params": params, "pins": pins, "alias_pins": alias_values(model, ctx)}
         res["smt_sample"] = valid.sexpr()[:600]
     elif ob.kind == "custom":
         out = ob.fn(ctx, path)
@@ -307,16 +307,16 @@ def replay_schedule(desc):
     with quiet() as buf:
         ctx = shape.build(P)
         ctx.P = P
-        consts0 = {}
-        # pins are expressed over the variables of a throw-away initialised solver
-        probe = ps.SchedulingSolver(problem=ctx.problem, **shape.solver_cfg)
-        probe.initialize()
-        if getattr(ctx, "early_solver", None) is not None:
-            early0 = ctx.early_solver
-            early0.initialize()
-            probe = early0
-        consts0, _ = formula.constants(list(probe._solver.assertions()))
-        pins = pin_expr(consts0, w["pins"])
+        # pins are expressed over z3 constants by name (z3 constants are global by name and sort);
+        # fresh names (x!n) are skipped, they would collide with the fresh names of this build
+        pins = []
+        for n, v in w["pins"].items():
+            if "!" in n:
+                continue
+            if isinstance(v, bool):
+                pins.append(z3.Bool(n) == z3.BoolVal(v))
+            elif isinstance(v, int):
+                pins.append(z3.Int(n) == v)
         named = {a: t for a, t in (getattr(ctx, "named", None) or {}).items() if z3.is_expr(t)}
         pins += pin_expr(named, w.get("alias_pins") or {})
         early = getattr(ctx, "early_solver", None)
@@ -368,10 +368,17 @@ def replay_schedule(desc):
     if desc["kind"] == "complete":
         # the schedule is valid by the reference semantics (evaluated on the pinned ints) ...
         subs = []
+        ap = w.get("alias_pins") or {}
         for o in ob.observables:
             n = o.decl().name()
+            v = None
             if n in w["pins"]:
                 v = w["pins"][n]
+            else:
+                for alias, term in named.items():  # uid-named observables travel under their alias
+                    if term.eq(o) and alias in ap:
+                        v = ap[alias]
+            if v is not None:
                 subs.append((o, z3.BoolVal(v) if isinstance(v, bool) else z3.IntVal(v)))
         valid = z3.simplify(z3.substitute(formula.to_z3(ob.valid), *subs))
         print(f"replay: S_valid on the pinned schedule = {valid}; solve() -> {'solution' if solution else solution}")
